@@ -57,7 +57,7 @@ type ebnfp struct {
 func ebnf(n node) string {
 	outp := []*ebnfp{}
 	switch n.(type) {
-	case *strct:
+	case *strct, *union: // Productions in their own right: print them and everything they refer to.
 		buildEBNF(true, n, map[node]bool{}, nil, &outp)
 		out := []string{}
 		for _, p := range outp {
